@@ -29,8 +29,8 @@ def obligations(tier):
         below, eq = S.G9_slice(hl)
         obs.append(S.SOb('C10.nbest[%s,n=3,tags=1-2-1,k=2]' % ('G9' if hl else 'G9r'), S.G9(hl), 3, below, pruning=2, penalty='0', nbest=2, eq=eq))
     if not q:
-        obs.append(S.SOb('C10.nbest[GU,n=4,tags=1,k=3]', c01.GUn(4), 4, S.one_tag(4, 4), pruning=1, penalty='0', nbest=3, max_seconds=1500))
-        obs.append(S.SOb('C10.nbest[G3c,n=2,tags=2,k=2]', S.G3(True), 2, pruning=2, penalty='sym', nbest=2, max_seconds=900))
+        obs.append(S.SOb('C10.nbest[GU,n=4,tags=1,k=3]', c01.GUn(4), 4, S.one_tag(4, 4), pruning=1, penalty='0', nbest=3, max_seconds=600))
+        obs.append(S.SOb('C10.nbest[G3c,n=2,tags=2,k=2]', S.G3(True), 2, pruning=2, penalty='sym', nbest=2, max_seconds=450))
     return obs
 
 
